@@ -8,13 +8,19 @@ from .props_h1 import TRUSTED
 PIGEON = os.path.join(core.BIN, "pigeon")
 
 
-def run_tool(tool, seed, n, extra=(), lift=None, timeout=3600, outdir=None):
+def run_tool(tool, seed, n, extra=(), lift=None, timeout=3600, outdir=None, pigeon=True):
     outdir = outdir or os.path.join(core.BUILD, "work", "tool_" + tool)
     shutil.rmtree(outdir, ignore_errors=True)
     os.makedirs(outdir, exist_ok=True)
-    cmd = [core.need_tool(tool), "-seed", str(seed), "-n", str(n), "-pigeon", PIGEON, "-out", outdir] + list(extra)
+    cmd = [core.need_tool(tool), "-seed", str(seed), "-n", str(n), "-out", outdir] + (["-pigeon", PIGEON] if pigeon else [])
+    extra = list(extra)
     if lift:
-        cmd += ["-lift", lift]
+        if "-lift" in extra:
+            i = extra.index("-lift")
+            extra[i + 1] = extra[i + 1] + "," + lift
+        else:
+            extra += ["-lift", lift]
+    cmd += extra
     p = subprocess.run(cmd, stdout=subprocess.PIPE, stderr=subprocess.PIPE, timeout=timeout, env=core.goenv(True), stdin=subprocess.DEVNULL)
     if p.returncode != 0:
         raise RuntimeError("%s failed (%d): %s" % (tool, p.returncode, p.stderr.decode()[-2000:]))
@@ -58,7 +64,7 @@ def generic(prop, cfg, tier, seed, parts, extra_viol=(), extra_cov=None):
         rep("proof-obligation", {"module": cfg["module"], "problems": audit["problems"]}, False)
     for tool, nq, nt, extra, lifts in parts:
         n = nq if tier == "quick" else nt
-        r = run_tool(tool, seed, n, extra)
+        r = run_tool(tool, seed, n, extra, pigeon=(tool != "pvopt"))
         reports[tool] = {k: r.get(k) for k in ("evaluations", "distinct_nontrivial", "failure_count", "failures_by_kind", "wall_s", "stats")}
         total_eval += r.get("evaluations", 0)
         total_dist += r.get("distinct_nontrivial", 0)
@@ -74,7 +80,7 @@ def generic(prop, cfg, tier, seed, parts, extra_viol=(), extra_cov=None):
             if fid not in lst:
                 continue
             try:
-                rr = run_tool(tool, seed, max(150, nq // 8), extra, lift=lift, timeout=900)
+                rr = run_tool(tool, seed, max(150, nq // 8), extra, lift=lift, timeout=900, pigeon=(tool != "pvopt"))
                 if rr.get("failure_count", 0) > 0:
                     kf.append("KNOWN-FINDING: property=%s %s %s" % (prop, fid, lst[fid]["what"]))
             except Exception as e:
@@ -117,6 +123,12 @@ def run_c04(prop, cfg, tier, seed):
     extra = [] if tier == "quick" else ["-all-flags"]
     return generic(prop, cfg, tier, seed,
                    [("pve2e", 30, 250, extra, {"optduplabels": "D5"})])
+
+
+def run_c09(prop, cfg, tier, seed):
+    # the avoidances of the repaired defects (D10, D11, D13) are lifted: they must stay repaired
+    return generic(prop, cfg, tier, seed,
+                   [("pvopt", 4000, 250000, ["-lift", "optmerge-inverted,optshare,optthrow"], {"optlabels": "D5", "optbytes": "O1"})])
 
 
 def regenerate_artifacts():
